@@ -4,6 +4,7 @@ import RcVerif.Spec.KeySlot
 import RcVerif.Model.SimInst
 import RcVerif.Model.Route
 import RcVerif.Model.Cluster
+import RcVerif.Model.AuthIp
 /-
   Line-protocol driver: one request per input line, one canonical answer per
   output line. Core-only, compiled as `rcdriver`.
@@ -186,11 +187,35 @@ def clusterLine (rest : String) : String :=
     | _ => (st, tbl, outs ++ ["bad-op"])) (({} : Cluster.RState), [], [])
   String.intercalate " | " outs
 
+/-! ### authip: `authip ev ; ev ...` with `W <0/1> <ip,ip|->`, `B` (unreadable), `D` (deleted), `V <ip>`, `A <remote>` -/
+def authipLine (rest : String) : String :=
+  let evs := ((rest.splitOn ";").map String.trimAscii).map (·.toString) |>.filter (· ≠ "")
+  let (_, outs) := evs.foldl (fun (acc : AuthIp.WL × List String) ev =>
+    let (w, outs) := acc
+    match (ev.splitOn " ").filter (· ≠ "") with
+    | ["W", en, l] =>
+      match (if l = "-" then some [] else (l.splitOn ",").mapM fromHex) with
+      | some ips => (AuthIp.reload w (some { enable := en != "0", list := ips }), outs ++ ["ok"])
+      | none => (w, outs ++ ["bad-op"])
+    | ["B"] => (AuthIp.reload w none, outs ++ ["err"])
+    | ["D"] => (AuthIp.reload w none, outs ++ ["err"])
+    | ["V", ip] =>
+      match fromHex ip with
+      | some b => (w, outs ++ [if AuthIp.validate w b then "1" else "0"])
+      | none => (w, outs ++ ["bad-op"])
+    | ["A", r] =>
+      match fromHex r with
+      | some b => (w, outs ++ [if AuthIp.admits w b then "admit" else "reject"])
+      | none => (w, outs ++ ["bad-op"])
+    | _ => (w, outs ++ ["bad-op"])) (({} : AuthIp.WL), [])
+  String.intercalate " " outs
+
 def stepLine (line : String) : String :=
   let line := line.trimAscii.toString
   if line.startsWith "sim " then simLine (line.drop 4).toString else
   if line.startsWith "route " then routeLine (line.drop 6).toString else
   if line.startsWith "cluster " then clusterLine (line.drop 8).toString else
+  if line.startsWith "authip " then authipLine (line.drop 7).toString else
   match (line.trimAscii.toString.splitOn " ").filter (· ≠ "") with
   | ["hash", k] =>
     match fromHex k with
